@@ -55,7 +55,7 @@ def build_series(cfg):
         if cfg.get("duplicate_rows"):
             k = max(1, T // 3)
             x[T - k:] = x[:k]
-        out.append(x * scales)
+        out.append(x * scales + float(cfg.get("data_offset") or 0.0))
     cfg.pop("_last_reg", None)
     return out
 
